@@ -18,6 +18,9 @@ FLAVOURS = {
  "surface": "Faults in the LESS-TRAVELLED API surface that earlier rounds left alone: rarely used inherent methods and conversions (e.g. `unsplit`, `try_reclaim`, `try_into_mut`, `from_owner`, `split`, `spare_capacity_mut`, `zeroed`, `resize`, `extend_from_slice`, `Bytes::is_unique`, `slice_ref`, `into_iter`), trait impls for niche types (`Extend`, `FromIterator`, `IntoIterator`, `From<..>` between handle / Vec / Box / String types, `Borrow`, `fmt::Write`, `io::Read` / `io::Write` / `BufRead` adapters `Reader` / `Writer`, `BufMut for &mut [MaybeUninit<u8>]`, `Buf for VecDeque<u8>` / `Cursor` / `Box<T>` / `&mut T` forwarding impls, `chunks_vectored`, `get_*_ne` / `put_*_ne`, `get_uint` / `get_int` / floats, `put_slice` / `put_bytes` / `put` overrides). Pick functions the test suite barely exercises.",
  "errorpath": "Faults on the ERROR / PANIC / UNWIND paths: what state is left behind when an operation panics, returns Err, or runs user code that panics (a `Buf`/`BufMut`/`AsRef`/`Iterator`/`Drop` impl supplied by the user) - a field updated before the check that can fail, a guard or drop that no longer runs on the unwinding path, an `Err` returned after part of the work was done, storage that is leaked or freed twice only when the call unwinds, a `try_*` that consumed input before failing, capacity-overflow requests, a handle left in a torn state after `catch_unwind`. The success paths must stay correct.",
  "fastpath": "Faults introduced by a plausible PERFORMANCE optimisation: a new fast path / early return / cached value / skipped step / weaker-but-cheaper operation (a relaxed load, a skipped reference-count round trip, a reused allocation, a copy elided, a check hoisted out of a loop) that is valid for most states but wrong for a particular state, representation, interleaving or configuration.",
+ "timeofcheck": "TIME-OF-CHECK faults: a check, measurement or pointer/length taken at one moment is relied upon after the state it describes has changed - a bounds check followed by an operation that changes the length/capacity/position before the checked value is used; a value read from a field or a cursor (`len`, `cap`, `remaining()`, `chunk().len()`, `as_ptr()`) cached in a local and reused after a call that moves, grows, splits or advances; two statements reordered so that a guard now protects the wrong state; a loop that computes its bound once although the body changes what the bound was computed from. Every individual statement must look reasonable on its own.",
+ "aliasing": "ALIASING faults: two handles, or a handle and a raw pointer / rebuilt `Vec` / control block, refer to the same storage and an update through one of them is not reflected in (or wrongly reflected in) the other - a field copied instead of shared, a clone that shares what it must copy or copies what it must share, a `Vec` rebuilt from raw parts that is dropped / grown while the handle still points into it, a control block field (`vec` length or capacity, original capacity, reference count) that drifts from what the handles assume, ownership handed over twice or not at all on one particular path.",
+ "arith": "ARITHMETIC faults: wrong width, signedness, rounding, saturation or overflow behaviour in the integer arithmetic the crate does on lengths, capacities, offsets, limits, shift amounts and encoded integers - `usize`/`u64`/`isize` conversions that truncate or sign-extend, `saturating_*` where exactness is needed (or the reverse), `checked_*` whose `None` is mapped to the wrong thing, an off-by-a-power-of-two in a shift or mask, `min`/`max` swapped, a subtraction whose operands can cross over for one representation only. The result must still pass every existing test.",
  "disguised": "Faults disguised as cleanups: a helper extracted and shared, control flow reshaped, a std API swapped in, a de-duplication - with the behaviour change hidden inside what reads like a refactoring.",
 }
 def main():
